@@ -67,6 +67,11 @@ Ops(s) ==
   \cup {[op |-> "lt", aux |-> a] : a \in {"same", "scale2", "otherq", "plain", "scaled_self"}}
   \cup {[op |-> "to", dtype |-> d] : d \in {"float16", "float32"}}
   \cup {[op |-> "copy_", aux |-> a] : a \in {"same", "plain"}}
+  \cup {[op |-> "to_device"]}                                                              \* x.to(device, copy = True)
+  \* contractions (qbytes_ops.py mm / bmm, qtensor_func.py linear): second operand plain, quantized alike, quantized otherwise
+  \cup {[op |-> "matmul", aux |-> a] : a \in {"plain", "same", "otherq"}}                    \* x @ M,  M : [last, 2]
+  \cup (IF Rank(s) = 3 THEN {[op |-> "bmm", aux |-> a] : a \in {"plain", "same"}} ELSE {})    \* torch.bmm(x, B),  B : [s1, last, 2]
+  \cup {[op |-> "linear", aux |-> a] : a \in {"plain", "qw8", "qw4", "qw8_last", "qw8_tensor"}}   \* F.linear(x, W),  W : [2, last] (float; qint8 per row / per column / per tensor; qint4)
 
 FloatShape(s, o) ==
   CASE o.op = "view" -> o.shape
@@ -85,6 +90,7 @@ FloatShape(s, o) ==
     [] o.op = "stack" -> InsertAt(s, o.dim, IF o.aux = "three" THEN 3 ELSE 2)
     [] o.op = "split" -> [s EXCEPT ![o.dim] = o.size]
     [] o.op = "sum" -> <<>>
+    [] o.op \in {"matmul", "bmm", "linear"} -> IF Rank(s) = 1 THEN <<2>> ELSE [s EXCEPT ![Rank(s)] = 2]
     [] o.op \in {"mul_t1", "div_t1"} -> IF Len(o.oshape) > Rank(s) THEN <<1>> \o s ELSE s       \* broadcasting with (1,) / (1, 1)
     [] OTHER -> s
 
@@ -109,7 +115,7 @@ QSem(c, o) ==
       ELSE IF o.op = "stack" /\ o.aux # "plain" /\ Dev_C05_StackFallback THEN Raise("TypeError")
       ELSE Plain(c, fs))
   ELSE IF c.kind = "QBits" THEN
-     (IF o.op \in {"detach", "contiguous", "clone", "roundtrip"} THEN c   \* contiguous() of a contiguous tensor returns self; clone keeps the class
+     (IF o.op \in {"detach", "contiguous", "clone", "roundtrip", "to_device"} THEN c   \* contiguous() of a contiguous tensor returns self; clone keeps the class
       ELSE IF o.op = "copy_" THEN c                           \* falls back on a temporary: the destination keeps its values (known finding)
       ELSE IF o.op = "to" THEN (IF o.dtype # c.dtype THEN RaiseW("ValueError", "refusal") ELSE c)
       ELSE IF o.op = "stack" /\ Dev_C05_StackFallback THEN Plain(c, fs)
@@ -132,7 +138,7 @@ QSem(c, o) ==
     [] o.op \in {"mul", "div", "mul_t", "div_t", "rmul"} -> IF o.k > 0 THEN QB(c, c.axis, fs, c.pshape) ELSE Plain(c, fs)    \* only positive scalars are folded into the scale
     [] o.op \in {"div_tensor", "add_tensor", "mul_t1", "div_t1"} -> Plain(c, fs)
     [] o.op \in {"neg", "relu"} -> IF IntQ(c) THEN QB(c, c.axis, fs, c.pshape) ELSE Plain(c, fs)
-    [] o.op \in {"clone", "detach", "roundtrip"} -> c        \* roundtrip: save_to_state_dict then load_from_state_dict
+    [] o.op \in {"clone", "detach", "roundtrip", "to_device"} -> c        \* roundtrip: save_to_state_dict then load_from_state_dict
     [] o.op = "softmax" -> QB(c, "none", fs, fs)
     [] o.op = "where" ->
          IF o.aux = "same" THEN (IF Dev_C05_WhereOther THEN Raise("NotImplementedError") ELSE Plain(c, fs))
@@ -144,7 +150,7 @@ QSem(c, o) ==
     [] o.op = "copy_" ->
          IF o.aux = "same" THEN c
          ELSE IF Dev_C05_CopyPlain THEN Raise("AttributeError") ELSE c
-    [] OTHER -> Plain(c, fs)          \* abs, add1, sum, gelu: qfallback
+    [] OTHER -> Plain(c, fs)          \* abs, add1, sum, gelu: qfallback; matmul / bmm / linear: a plain result on every route
 
 (* ---- state machine -------------------------------------------------------------------------- *)
 InitShapes == {<<2, 3>>, <<3, 2>>, <<6>>, <<2, 1, 3>>}
